@@ -30,6 +30,18 @@ CLAIMED = {
          'totality: every operand value other than zero divisors and negative shift counts must either return or raise the tag\'s own signal; UB is made visible by UBSan traps (signed overflow, shift, division, float-cast) and SIGFPE, internal errors by hook H2; both detection paths forced on both compilers',
          'UB that no sanitizer check covers at -O1 is out of reach; six listed known findings (oversized shift of 0, lowest()/-1 in the portable multiply test, NaN and rounded-max float sources, neutral polarity on the intrinsic path)',
          'DESIGN.md section 5 C07'),
+ 'C01': ('rapidcheck magnitude-fitted operands + exhaustive 8-bit rep planes over a generated matrix of scaled_integer instantiations vs GMP rationals',
+         'value = rep x radix^exponent computed exactly; for every (rep pair, exponent pair, radix, op) site the result exponent and the exact value of the result are compared; operands are shaped so that the stated preconditions (aligned operands and exact result fit) hold in most cases; 8-bit x 8-bit planes are exhaustive',
+         'quick tier runs a fixed checkerboard half of the 8x8x7 matrix, thorough all of it plus 128-bit, wrapper reps and exponents to +-70; ranges of wrapper reps come from their numeric_limits',
+         'DESIGN.md section 5 C01'),
+ 'C02': ('rapidcheck directed divisors (+-1, +-2^k, k*b+-1, corners) + exhaustive 8-bit planes vs GMP integer division identities and exact rational quotient',
+         'for / and %: exponents, truncated quotient of the reps, (a/b)*b + a%b == a, remainder sign and magnitude; for quotient(): truncation toward zero with error below one unit of the result and no UB at the corner values; both over a generated matrix of operand instantiations',
+         'mixed signedness only where the usual arithmetic conversions keep both values, min / -1 excluded (as stated); one listed known finding (quotient of an unsigned dividend by a negative divisor)',
+         'DESIGN.md section 5 C02'),
+ 'C03': ('rapidcheck correlated operand pairs (same value expressed at the other exponent, +-1 unit) + exhaustive 8-bit planes vs the order of exact GMP rationals, in both operand orders',
+         'all six operators in both orders must equal the order of the denoted values (or, for built-in reps of different signedness with an unsigned common type, the built-in comparison of the aligned reps, as the statement requires) over scaled, elastic and wide families; number-vs-built-in comparisons are checked against the same comparison with the built-in wrapped in the CNL type',
+         'two listed known findings (wide_integer pairs of different types when an operand is not representable in the other type; built-in operand whose alignment overflows against an elastic-rep number); 32 wide pairings that do not compile on the pinned tree are listed in uncompilable_allow.json',
+         'DESIGN.md section 5 C03'),
 }
 
 def main():
